@@ -883,6 +883,8 @@ fn realfile_passwords(ctx: &mut Ctx, base: &Case, env: &Env) -> Result<(), Strin
         _ => format!("Pass-{}-{}-tail{}", base.key, "correct horse battery staple ".repeat(4), base.key),
     };
     let password = if base.gen_seed % 4 == 0 { format!("{}\n", password) } else { password };
+    // a third of the passwords are not ASCII (accented letters, a non-BMP character)
+    let password = if base.gen_seed % 3 == 1 { password.replacen("Pass", "Pässwörd-é€𝄞", 1) } else { password };
     set_hooks(base);
     env.subj.save_encrypted_file(&env.value, &path, true, &password).map_err(|e| format!("{:?}", e))?;
     let flip_last = |s: &str, back: usize| -> String {
@@ -891,7 +893,24 @@ fn realfile_passwords(ctx: &mut Ctx, base: &Case, env: &Env) -> Result<(), Strin
         b[i] = if b[i] == 'q' { 'r' } else { 'q' };
         b.into_iter().collect()
     };
-    let wrong: Vec<String> = vec![
+    // unicode near misses: one character replaced by the one 256 / 65536 code points further on (same low byte),
+    // by its other normalisation-free look-alike, and the whole password with every non-ASCII character dropped
+    let shift = |s: &str, nth: usize, by: u32| -> String {
+        s.chars().enumerate().map(|(i, c)| if i == nth { char::from_u32(c as u32 + by).unwrap_or('q') } else { c }).collect()
+    };
+    let nchars = password.chars().count();
+    let mut wrong: Vec<String> = vec![
+        shift(&password, 0, 256),
+        shift(&password, 1, 256),
+        shift(&password, nchars / 2, 256),
+        shift(&password, nchars - 1, 256),
+        shift(&password, nchars - 1, 65536),
+        shift(&password, 1, 512),
+        password.chars().filter(|c| c.is_ascii()).collect(),
+        password.chars().map(|c| if c.is_ascii() { c } else { '?' }).collect(),
+        password.chars().map(|c| (c as u32 as u8) as char).collect(),
+    ];
+    wrong.extend(vec![
         flip_last(&password, 0),
         flip_last(&password, 1),
         flip_last(&password, 5),
@@ -913,7 +932,7 @@ fn realfile_passwords(ctx: &mut Ctx, base: &Case, env: &Env) -> Result<(), Strin
         format!("{}x", password),
         "password".to_string(),
         password.replace('-', "_"),
-    ];
+    ]);
     for w in wrong {
         if w == password {
             continue;
